@@ -4,43 +4,73 @@ From Verif Require Import C14.Model C14.Spec C14.Proofs.
 Import ListNotations.
 Open Scope Z_scope.
 
-(* PARTIAL (see below what is missing).  For target stores that satisfy the
-   headerfs invariant and stand at the same height, for every chain
-   parameter set, file start height, file length, write batch size, overlap,
-   corruption of the file and injected write/rollback failure:
+(* The full statement.  For target stores that satisfy the headerfs
+   invariant [stores_wf] — which admits every height difference headerfs
+   itself admits: filter store level with or below the block store — for
+   every chain parameter set, file start height, file length, write batch
+   size, overlap, corruption of the file and injected write/rollback failure:
 
-   - whatever Import returns, the stores again satisfy the invariant (both
-     ChainTips readable at the end of their files, every stored block header
-     indexed at its height: C14_stores_usable), the filter store is not
-     ahead of the block store, each store consists of its earlier contents
-     followed by a (possibly empty) initial part of the file's headers above
-     them — so nothing but correctly positioned file headers is ever written,
-     and only after the whole file passed validation — and, unless the
-     compensating rollback itself was made to fail, both stores are again at
-     equal heights;
-   - if Import reports success, both stores hold exactly their earlier
-     contents extended by the file's headers up to the file's last height.
+   whatever Import returns,
+   - the stores again satisfy the invariant: both ChainTips readable at the
+     end of their files, every stored block header indexed at its height
+     (C14_stores_usable), filter store not ahead of the block store;
+   - each store consists of its earlier contents followed by a (possibly
+     empty) initial part of the file's headers above them, so only correctly
+     positioned file headers are ever written; unless the compensating
+     rollback itself was made to fail, the gap between the two stores does
+     not widen and the block store grows only once the gap is closed (all or
+     nothing per batch: stores at equal heights stay at equal heights);
+   - nothing unvalidated was written: if the earlier block headers formed a
+     valid connected chain (every header links to its predecessor by hash,
+     carries the required difficulty, a timestamp above the median time past
+     and sufficient proof of work), so do the block headers afterwards, and
+     every filter header added agrees with the filter header checkpoints;
+   if Import reports success,
+   - both stores hold exactly their earlier contents extended by the file's
+     headers up to the file's last height (block store ahead: the filter
+     store catches up from the file, then both are extended), and
+   - (the earlier block headers forming a valid chain) repeating the import,
+     under any injected faults, succeeds and changes nothing.
 
-   Hypotheses: the store invariant, equal heights, the token form of hash
-   collision freedom (distinct headers of old contents + file part above
-   them have distinct hashes).
-
-   Missing from the proved statement (covered only by the differential
-   replay of real-store traces against this model and by the monitor):
-   target stores at different heights (block store ahead), validity of the
-   resulting block header chain, idempotence of a repeated import. *)
-Theorem C14_import_equal_heights_partial : forall P s b f bs fl r s',
-  stores_wf s -> length (bfile s) = length (ffile s) -> 0 <= hz (b_start b) ->
+   Hypotheses: the store invariant; start height >= 0; the token form of hash
+   collision freedom (distinct positions of old contents + file part above
+   them carry distinct hashes [NoDup]; equal hashes mean equal headers among
+   store and file [hash_inj]); blocks-per-retarget >= 1 unless the chain does
+   not retarget. *)
+Theorem C14_import : forall P s b f bs fl r s',
+  stores_wf s -> 0 <= hz (b_start b) ->
   NoDup (map hid (extend (bfile s) (hz (b_start b)) (bs_hdrs b))) ->
+  hash_inj (bfile s ++ bs_hdrs b) -> retarget_ok P ->
   import P s b f bs fl = (r, s') ->
-  stores_wf s' /\ (length (ffile s') <= length (bfile s'))%nat /\
-  contents_post fl s s' (hz (b_start b)) (bs_hdrs b) (fs_hdrs f) /\
+  stores_wf s' /\
+  (exists rest, bfile s' ++ rest = extend (bfile s) (hz (b_start b)) (bs_hdrs b)) /\
+  (exists rest, ffile s' ++ rest = extend (ffile s) (hz (b_start b)) (fs_hdrs f)) /\
+  (length (bfile s) <= length (bfile s'))%nat /\ (length (ffile s) <= length (ffile s'))%nat /\
+  (fl_rb fl = false ->
+     Z.of_nat (length (bfile s')) - Z.of_nat (length (ffile s')) <=
+     Z.of_nat (length (bfile s)) - Z.of_nat (length (ffile s)) /\
+     (length (bfile s') = length (bfile s) \/ length (bfile s') = length (ffile s'))) /\
+  (valid_chain P (bfile s) -> valid_chain P (bfile s')) /\
+  validate_filters_from P (skipn (length (ffile s)) (ffile s')) (Z.of_nat (length (ffile s))) = true /\
   (r = Success ->
      bfile s' = extend (bfile s) (hz (b_start b)) (bs_hdrs b) /\
      ffile s' = extend (ffile s) (hz (b_start b)) (fs_hdrs f) /\
-     hz (b_end b) < Z.of_nat (length (bfile s')) /\ length (bfile s') = length (ffile s')).
-Proof. exact import_equal_heights. Qed.
-Print Assumptions C14_import_equal_heights_partial.
+     hz (b_end b) < Z.of_nat (length (ffile s')) /\
+     (valid_chain P (bfile s) -> forall fl', import P s' b f bs fl' = (Success, s'))).
+Proof. exact import_full. Qed.
+Print Assumptions C14_import.
+
+(* What the block header validator establishes: every two adjacent headers of
+   the file pass the pair validation (at whatever batch boundaries), and so
+   does the file's first header against the target store's header below it. *)
+Theorem C14_validated_file_is_chain : forall P s b B,
+  validate_blocks P s b B = true ->
+  chain_from P (lk s b) (bs_hdrs b) (hz (b_start b)) /\
+  (forall q x, hz (b_start b) > 0 -> b_fetch s (Ht (hz (b_start b) - 1)) = Some q ->
+     nth_error (bs_hdrs b) 0 = Some x ->
+     pair_ok P (lk s b) (q, hz (b_start b) - 1) (x, hz (b_start b)) = true).
+Proof. exact validate_blocks_chain. Qed.
+Print Assumptions C14_validated_file_is_chain.
 
 (* The invariant means "usable": both ChainTip calls succeed and report the
    last header of their file. *)
@@ -62,10 +92,11 @@ Proof. exact rollback_bwrite. Qed.
 Print Assumptions C14_compensation_exact.
 
 (* Non-vacuity: stores 0..2, a file starting at height 1 (not 0) with five
-   headers, batch size 2 (does not divide the three new heights): the
-   hypotheses hold, the import succeeds with the expected contents; with the
-   second filter write failing it reports failure and leaves both stores at
-   height 4 (first batch kept, second batch compensated). *)
+   headers, batch size 2 (does not divide the three new heights): all
+   hypotheses of C14_import hold, the old chain is valid, the import succeeds
+   with the expected contents; with the second filter write failing it
+   reports failure and leaves both stores at height 4 (first batch kept,
+   second batch compensated). *)
 Definition ex_P : params := mkP 7 true 2016 1 1 1 (2 ^ 255 - 1) 545259519 [] 2000000000.
 Definition ex_h (i : Z) : hdr := H i (i - 1) 545259519 (1000 + 600 * i) 5.
 Definition ex_s : stores := init_stores [ex_h 1; ex_h 2; ex_h 3] [10; 11; 12].
@@ -73,8 +104,9 @@ Definition ex_b : bsource := mkBS (mkM 7 0 0 (Ht 1) 0) [ex_h 2; ex_h 3; ex_h 4; 
 Definition ex_f : fsource := mkFS (mkM 7 0 1 (Ht 1) 0) [11; 12; 13; 14; 15].
 
 Example C14_nonvacuous :
-  stores_wf ex_s /\ length (bfile ex_s) = length (ffile ex_s) /\
+  stores_wf ex_s /\ 0 <= hz (b_start ex_b) /\
   NoDup (map hid (extend (bfile ex_s) (hz (b_start ex_b)) (bs_hdrs ex_b))) /\
+  hash_inj (bfile ex_s ++ bs_hdrs ex_b) /\ retarget_ok ex_P /\ valid_chain ex_P (bfile ex_s) /\
   (let '(r, s') := import ex_P ex_s ex_b ex_f 2 (mkF 0 0 false) in
    (r, map hid (bfile s'), ffile s')) = (Success, [1; 2; 3; 4; 5; 6], [10; 11; 12; 13; 14; 15]) /\
   (let '(r, s') := import ex_P ex_s ex_b ex_f 2 (mkF 0 2 false) in
@@ -91,7 +123,52 @@ Proof.
       destruct Hh as [Hh|[Hh|Hh]]; subst h; vm_compute in Hn; inversion Hn; reflexivity.
     - split; reflexivity.
     - eexists. split; reflexivity. }
-  split; [reflexivity|].
+  split; [cbn; lia|].
   split; [vm_compute; repeat constructor; cbn; intuition lia|].
+  split.
+  { intros x y Hx Hy He. cbn in Hx, Hy.
+    repeat match goal with
+           | Hd : _ \/ _ |- _ => destruct Hd
+           | Hf : False |- _ => destruct Hf
+           end; subst; try reflexivity; cbn in He; discriminate. }
+  split; [now left|].
+  split; [vm_compute; reflexivity|].
+  split; vm_compute; reflexivity.
+Qed.
+
+(* Block store ahead of the filter store (blocks 0..2, filters 0..1; the
+   usual state of a node whose filter header sync lags): the same file first
+   lets the filter store catch up at height 2 (filter-only batch carrying
+   block header 3's hash), then extends both; a file ending at the block tip
+   only completes the filter store; with the filter write of the first
+   common batch failing, the import reports failure and leaves both stores
+   usable at height 2 (gap closed, batch compensated). *)
+Definition ex_s_ahead : stores := init_stores [ex_h 1; ex_h 2; ex_h 3] [10; 11].
+Definition ex_b2 : bsource := mkBS (mkM 7 0 0 (Ht 1) 0) [ex_h 2; ex_h 3].
+Definition ex_f2 : fsource := mkFS (mkM 7 0 1 (Ht 1) 0) [11; 12].
+
+Example C14_nonvacuous_block_ahead :
+  stores_wf ex_s_ahead /\ (length (ffile ex_s_ahead) < length (bfile ex_s_ahead))%nat /\
+  (let '(r, s') := import ex_P ex_s_ahead ex_b ex_f 2 (mkF 0 0 false) in
+   (r, map hid (bfile s'), ffile s', f_chaintip s')) =
+     (Success, [1; 2; 3; 4; 5; 6], [10; 11; 12; 13; 14; 15], Some (15, Ht 5)) /\
+  (let '(r, s') := import ex_P ex_s_ahead ex_b2 ex_f2 2 (mkF 0 0 false) in
+   (r, map hid (bfile s'), ffile s', f_chaintip s')) = (Success, [1; 2; 3], [10; 11; 12], Some (12, Ht 2)) /\
+  (let '(r, s') := import ex_P ex_s_ahead ex_b ex_f 2 (mkF 0 2 false) in
+   (r, map hid (bfile s'), ffile s', f_chaintip s')) = (Failure, [1; 2; 3], [10; 11; 12], Some (12, Ht 2)).
+Proof.
+  split.
+  { constructor.
+    - discriminate.
+    - discriminate.
+    - cbn. lia.
+    - cbn. repeat constructor; cbn; intuition lia.
+    - intros h x Hn. pose proof (nthZ_lt _ _ _ Hn) as Hb. cbn in Hb.
+      assert (Hh : h = 0 \/ h = 1 \/ h = 2) by lia.
+      destruct Hh as [Hh|[Hh|Hh]]; subst h; vm_compute in Hn; inversion Hn; reflexivity.
+    - split; reflexivity.
+    - eexists. split; reflexivity. }
+  split; [cbn; lia|].
+  split; [vm_compute; reflexivity|].
   split; vm_compute; reflexivity.
 Qed.
